@@ -200,6 +200,39 @@ def read_data(cid_rows, path, as_stream=False):
             stream.close()
 
 
+def api_built(rows, data_text):
+    """a CID built call by call (add_data_format_row / add_field_format_row / add_check_row); a call that is refused with an
+    InterfaceError is skipped, as a caller that reports the problem and goes on would do; then data are validated"""
+    try:
+        cid = interface.Cid()
+        refused = 0
+        for row in rows:
+            try:
+                kind = row[0].strip().lower()
+                if kind == "d":
+                    cid.add_data_format_row(list(row[1:]))
+                elif kind == "f":
+                    cid.add_field_format_row(list(row[1:]))
+                else:
+                    cid.add_check_row(list(row[1:]))
+            except errors.InterfaceError:
+                refused += 1
+        try:
+            cid.data_format.validate()
+        except errors.InterfaceError:
+            return {"interface": "contradicting properties", "refused": refused}
+        n = 0
+        for _ in cutplace.rows(cid, io.StringIO(data_text, newline=""), on_error="continue"):
+            n += 1
+        return {"rows": n, "refused": refused}
+    except errors.DataError as e:
+        return {"dataerror": type(e).__name__}
+    except errors.InterfaceError as e:
+        return {"interface": str(e)[:100]}
+    except Exception as e:  # noqa
+        return {"leak": type(e).__name__, "msg": "CID built call by call: " + str(e)[:100]}
+
+
 def write_data(cid_rows, rows):
     """validio.Writer on a stream: rows either are written or refused with a DataError"""
     from cutplace import validio
@@ -294,6 +327,9 @@ def make_case(inp):
                 obs = {"leak": type(e).__name__, "msg": "as CID: " + str(e)[:100]}
         os.remove(path)
         return {"coq": P("CNoModel", "ONone"), "obs": obs, "nontrivial": True, "tags": ["container", ext, inp.get("damage", "text"), sorted(obs)[0]]}
+    if kind == "api":
+        obs = api_built(inp["rows"], inp["data"])
+        return {"coq": P("CNoModel", "ONone"), "obs": obs, "nontrivial": True, "tags": ["api", sorted(obs)[0]]}
     if kind == "write":
         obs = write_data(DATA_CID[inp["cid"]], inp["rows"])
         return {"coq": P("CNoModel", "ONone"), "obs": obs, "nontrivial": True, "tags": ["write", inp["cid"], sorted(obs)[0]]}
@@ -312,6 +348,10 @@ def direct_oracle(inp, obs):
             return "declaring a %s field raised %s" % (inp["decl"]["type"], obs["decl_detail"])
         if obs["leaks"]:
             return "%s field: validated_value(%r) raised %s" % (inp["decl"]["type"], obs["leaks"][0][0], obs["leaks"][0][1])
+        return None
+    if kind == "api":
+        if "leak" in obs:
+            return "%s (%s) after the calls %r" % (obs["leak"], obs["msg"], inp["rows"][-3:])
         return None
     if kind == "write":
         if "leak" in obs:
@@ -407,6 +447,32 @@ def gen_inputs(tier, rnd):
                 row = list(good_row)
                 row[col] = v
                 yield {"kind": "write", "cid": cid_name, "rows": [row, good_row]}
+    # values that are no strings at all handed to the validating writer: a data error, not a TypeError / AttributeError
+    for cid_name in ("txtall", "csvall"):
+        for col in range(len(good_row)):
+            for v in (None, 1, 1.5, b"x", ["x"], True):
+                row = list(good_row)
+                row[col] = v
+                yield {"kind": "write", "cid": cid_name, "rows": [row, good_row]}
+    # (c'') a CID built call by call, one call refused in between, the corrected call made afterwards
+    base = BASES["delimited"]
+    good_data = "a;b;c;d;e;f;g;h\n1;x;1.5;01.02.2003;abc;abc;k;\n2;y;2.5;02.02.2003;abc;abc;k;\n"
+    fixes = [(["C", "u2", "IsUnique", "nope"], ["C", "u2", "IsUnique", "a"]), (["C", "u2", "IsSorted", "a"], ["C", "u2", "IsUnique", "a"]),
+             (["C", "u2", "IsUnique", "a,"], ["C", "u2", "IsUnique", "a"]), (["C", "d2", "DistinctCount", "a <"], ["C", "d2", "DistinctCount", "a < 9"]),
+             (["C", "d2", "DistinctCount", "zz < 3"], ["C", "d2", "DistinctCount", "b < 3"]), (["C", "u", "IsUnique", "b"], ["C", "u3", "IsUnique", "b"]),
+             (["C", "", "IsUnique", "a"], ["C", "u4", "IsUnique", "a, b"])]
+    for bad, good in fixes:
+        yield {"kind": "api", "rows": base + [bad], "data": good_data}
+        yield {"kind": "api", "rows": base + [bad, good], "data": good_data}
+        yield {"kind": "api", "rows": base + [bad, bad, good, good], "data": good_data}
+    for bad, good in [(["F", "x1", "", "", "", "Foo"], ["F", "x1", "", "X", "", "Text"]), (["F", "x1", "", "", "1...x", "Text"], ["F", "x1", "", "X", "", "Text"]),
+                      (["F", "x1", "zz", "", "", "Integer"], ["F", "x1", "", "X", "", "Integer"]), (["F", "a"], ["F", "a2", "", "X"]),
+                      (["F", "x1", "", "", "", "Integer", "1...("], ["F", "x1", "", "X", "", "Integer", "1...9"])]:
+        fields_only = [r for r in base if r[0] != "C"]
+        yield {"kind": "api", "rows": fields_only + [bad], "data": good_data}
+        yield {"kind": "api", "rows": fields_only + [bad, good], "data": good_data.replace("\n", ";\n")}
+    for bad, good in [(["D", "Header", "x"], ["D", "Header", "1"]), (["D", "Quote character", "ab"], ["D", "Quote character", "'"]), (["D", "Colour", "red"], ["D", "Encoding", "utf-8"])]:
+        yield {"kind": "api", "rows": base[:1] + [bad, good] + base[1:], "data": good_data}
     # (d) the command line
     good_cid = csv_text(BASES["delimited"][:1] + [["D", "Encoding", "utf-8"], ["F", "a", "", "", "", "Integer"]])
     for data in ["1\n", "x\n", "\udcff\n", '"1\n', "", "1,2\n", "NaN\n"]:
